@@ -8,9 +8,10 @@
    [grun] (GenTie/ShellSource.v) drives a session of Next / Rest calls through the generated
    Next, Text, Complete and Rest from the four scanner fields the generated NewScanner returns;
    after a Rest the caller reads the reader it was handed to its end.
-   NOT COVERED at source level: sessions with Err / Reset / Scanner.Split / Each (their
-   per-function ties are registered; Each takes a pure callback, the model's a counter), readers
-   that fail or fragment, Go's int width. *)
+   [grunx]: the same with Err, Reset (to a fresh reader of the session's input) and Scanner.Split.
+   NOT COVERED at source level: sessions with Each (its per-function ties are registered; the
+   generated Each takes a pure callback and does not return the tokens it passed on, the model's
+   callback is a counter), readers that fail or fragment, Go's int width. *)
 From Coq Require Import ZArith NArith List Bool.
 Import ListNotations.
 Set Warnings "-notation-overridden".
@@ -57,3 +58,29 @@ Theorem C16_run_source : forall (ops : list sc_op) (sc : scanner) (fuel : nat),
   grun fuel (zs (inp sc)) (zs (cur sc)) (st_z (st sc)) (err_z (eof sc)) ops = map enc_out (run_ops sc ops).
 Proof. exact C16_run_is_source. Qed.
 Print Assumptions C16_run_source.
+
+(* the whole API but Each: sessions of Next / Rest / Err / Reset / Scanner.Split on a new Scanner,
+   through the generated methods, are accepted by the reference checker [session_okx] and never panic *)
+Theorem C16_sessionx_source : forall (s : list N) (ops : list sc_opx), bytes_ok s -> forallb no_each ops = true ->
+  exists b c st e outs,
+    FnShell.NewScanner (zs s) new_reader [] = Ok (b, c, st, e) /\
+    grunx (length s + 2) (zs s) b c st e ops = map enc_outx outs /\
+    session_okx s ops outs = true /\ ~ In XRPanic outs.
+Proof. exact C16_sessionx_source_proof. Qed.
+Print Assumptions C16_sessionx_source.
+
+Example C16_sessionx_source_ex :   (* a <sq>b c<sq> d   with  Next, Err, Split, Err, Next, Reset, Next, Rest *)
+  grunx 11 [97; 32; 39; 98; 32; 99; 39; 32; 100]%Z [97; 32; 39; 98; 32; 99; 39; 32; 100]%Z [] 1 ENil
+    [XNext; XErr; XSplit; XErr; XNext; XReset; XNext; XRest]
+  = [GXNext true [97]%Z true; GXErr false; GXSplit [[98; 32; 99]; [100]]%Z [100]%Z true; GXErr true;
+     GXNext false [100]%Z true; GXReset; GXNext true [97]%Z true; GXRest [39; 98; 32; 99; 39; 32; 100]%Z].
+Proof. vm_compute. reflexivity. Qed.
+
+(* ... from any scanner state = the model's session *)
+Theorem C16_runx_source : forall (ops : list sc_opx) (src : list N) (sc : scanner) (n fuel : nat),
+  forallb no_each ops = true -> bytes_ok src -> bytes_ok (inp sc) ->
+  (length src <= n)%nat -> (length (inp sc) <= n)%nat -> (n + 2 <= fuel)%nat ->
+  grunx fuel (zs src) (zs (inp sc)) (zs (cur sc)) (st_z (st sc)) (err_z (eof sc)) ops
+  = map enc_outx (run_opsx src sc ops).
+Proof. exact C16_runx_is_source. Qed.
+Print Assumptions C16_runx_source.
